@@ -222,7 +222,7 @@ Section Den3.
     exists p, construct binop LMAX F CReverse [AP c] = Yield p /\ forall g, Den (S g) p (Fin (ref_reverse l)).
   Proof.
     intros Hc Hr HF. cbn [construct]. destruct F as [|F]; [lia|]. rewrite reset_reverse_eq.
-    cbn [reset_field]. change c with (after f 0 c) at 1. rewrite (Resets_ge f F c 0 Hr ltac:(lia)). cbn [omap obind].
+    cbn [reset_field reset_value]. change c with (after f 0 c) at 1. rewrite (Resets_ge f F c 0 Hr ltac:(lia)). cbn [omap obind].
     destruct F as [|F2]; [lia|]. rewrite (aall_unfold binop LMAX).
     destruct (take_some f c l Hc F2 ltac:(lia) LMAX 0) as (vs & k & Et). cbn [after] in Et. rewrite Et.
     rewrite (Resets_ge f F2 c k Hr ltac:(lia)). cbn [obind].
@@ -432,7 +432,7 @@ Section Den3.
               forall g, Den (S g) p (Fin (ref_pingpong count l)).
   Proof.
     intros Hc Hr HL HF. cbn [construct]. destruct F as [|F]; [lia|]. rewrite reset_pingpong_eq.
-    cbn [reset_field]. change c with (after f 0 c) at 1. rewrite (Resets_ge f F c 0 Hr ltac:(lia)). cbn [omap obind].
+    cbn [reset_field reset_value]. change c with (after f 0 c) at 1. rewrite (Resets_ge f F c 0 Hr ltac:(lia)). cbn [omap obind].
     destruct F as [|F2]; [lia|]. rewrite (areset_strict_unfold binop LMAX).
     change c with (after f 0 c) at 1. rewrite (Resets_ge f F2 c 0 Hr ltac:(lia)). cbn [omap obind].
     rewrite (aall_unfold binop LMAX).
